@@ -71,7 +71,10 @@ use std::sync::Arc;
 use mdk_storage_traits::{Backend, GroupId, MdkStorageError, MdkStorageProvider};
 use openmls_traits::storage::{StorageProvider, traits};
 use rusqlite::Connection;
+#[cfg(not(feature = "verif-hooks"))]
 use std::sync::Mutex;
+#[cfg(feature = "verif-hooks")]
+use self::verif::sync::Mutex;
 
 mod db;
 pub mod encryption;
@@ -85,6 +88,8 @@ mod permissions;
 #[cfg(test)]
 mod test_utils;
 mod validation;
+#[cfg(feature = "verif-hooks")]
+pub mod verif;
 mod welcomes;
 
 pub use self::encryption::EncryptionConfig;
@@ -188,7 +193,11 @@ impl MdkSqliteStorage {
         // Atomically create the database file first, BEFORE making key decisions.
         // This prevents TOCTOU races where another process could create the file
         // between our existence check and key generation.
+        #[cfg(feature = "verif-hooks")]
+        verif::tick(verif::Point::Open("new:start"));
         let creation_outcome = precreate_secure_database_file(file_path)?;
+        #[cfg(feature = "verif-hooks")]
+        verif::tick(verif::Point::Open("new:after_precreate"));
 
         let config = match creation_outcome {
             FileCreationOutcome::Created | FileCreationOutcome::Skipped => {
@@ -230,6 +239,8 @@ impl MdkSqliteStorage {
             }
         };
 
+        #[cfg(feature = "verif-hooks")]
+        verif::tick(verif::Point::Open("new:after_key"));
         Self::new_internal_skip_precreate(file_path, Some(config))
     }
 
@@ -342,8 +353,12 @@ impl MdkSqliteStorage {
         // Create or open the unified SQLite database connection
         let mut connection = Self::open_connection(file_path, encryption_config.as_ref())?;
 
+        #[cfg(feature = "verif-hooks")]
+        verif::tick(verif::Point::Open("internal:after_open"));
         // Apply all migrations (both OpenMLS tables and MDK tables)
         migrations::run_migrations(&mut connection)?;
+        #[cfg(feature = "verif-hooks")]
+        verif::tick(verif::Point::Open("internal:after_migrations"));
 
         // Ensure secure permissions on the database file and any sidecar files
         Self::apply_secure_permissions(file_path)?;
@@ -454,6 +469,8 @@ impl MdkSqliteStorage {
     where
         F: FnOnce(&Connection) -> T,
     {
+        #[cfg(feature = "verif-hooks")]
+        verif::tick(verif::Point::Conn);
         let conn = self.connection.lock().unwrap();
         f(&conn)
     }
@@ -461,6 +478,8 @@ impl MdkSqliteStorage {
     /// Creates a snapshot of a group's state by copying all group-related rows
     /// to the snapshot table.
     fn snapshot_group_state(&self, group_id: &GroupId, name: &str) -> Result<(), Error> {
+        #[cfg(feature = "verif-hooks")]
+        verif::tick(verif::Point::Conn);
         let conn = self.connection.lock().unwrap();
         let group_id_bytes = group_id.as_slice();
         // MLS storage uses MlsCodec serialization for group_id keys.
@@ -475,6 +494,8 @@ impl MdkSqliteStorage {
         // Begin transaction for atomicity
         conn.execute("BEGIN IMMEDIATE", [])
             .map_err(|e| Error::Database(e.to_string()))?;
+        #[cfg(feature = "verif-hooks")]
+        verif::tick(verif::Point::Txn("snapshot:begin"));
 
         let result = (|| -> Result<(), Error> {
             // Helper to insert snapshot rows
@@ -496,6 +517,8 @@ impl MdkSqliteStorage {
                 &mls_group_id_bytes,
                 now,
             )?;
+            #[cfg(feature = "verif-hooks")]
+            verif::tick(verif::Point::Txn("snapshot:after:group_data"));
             Self::snapshot_openmls_proposals(
                 &conn,
                 &mut insert_stmt,
@@ -504,6 +527,8 @@ impl MdkSqliteStorage {
                 &mls_group_id_bytes,
                 now,
             )?;
+            #[cfg(feature = "verif-hooks")]
+            verif::tick(verif::Point::Txn("snapshot:after:proposals"));
             Self::snapshot_openmls_own_leaf_nodes(
                 &conn,
                 &mut insert_stmt,
@@ -512,6 +537,8 @@ impl MdkSqliteStorage {
                 &mls_group_id_bytes,
                 now,
             )?;
+            #[cfg(feature = "verif-hooks")]
+            verif::tick(verif::Point::Txn("snapshot:after:own_leaf_nodes"));
             Self::snapshot_openmls_epoch_key_pairs(
                 &conn,
                 &mut insert_stmt,
@@ -520,9 +547,15 @@ impl MdkSqliteStorage {
                 &mls_group_id_bytes,
                 now,
             )?;
+            #[cfg(feature = "verif-hooks")]
+            verif::tick(verif::Point::Txn("snapshot:after:epoch_key_pairs"));
             // MDK tables use raw bytes for mls_group_id
             Self::snapshot_groups_table(&conn, &mut insert_stmt, name, group_id_bytes, now)?;
+            #[cfg(feature = "verif-hooks")]
+            verif::tick(verif::Point::Txn("snapshot:after:groups"));
             Self::snapshot_group_relays(&conn, &mut insert_stmt, name, group_id_bytes, now)?;
+            #[cfg(feature = "verif-hooks")]
+            verif::tick(verif::Point::Txn("snapshot:after:relays"));
             Self::snapshot_group_exporter_secrets(
                 &conn,
                 &mut insert_stmt,
@@ -536,6 +569,8 @@ impl MdkSqliteStorage {
 
         match result {
             Ok(()) => {
+                #[cfg(feature = "verif-hooks")]
+                verif::tick(verif::Point::Txn("snapshot:before_commit"));
                 conn.execute("COMMIT", [])
                     .map_err(|e| Error::Database(e.to_string()))?;
                 Ok(())
@@ -854,6 +889,8 @@ impl MdkSqliteStorage {
     /// Restores a group's state from a snapshot by deleting current rows
     /// and re-inserting from the snapshot table.
     fn restore_group_from_snapshot(&self, group_id: &GroupId, name: &str) -> Result<(), Error> {
+        #[cfg(feature = "verif-hooks")]
+        verif::tick(verif::Point::Conn);
         let conn = self.connection.lock().unwrap();
         let group_id_bytes = group_id.as_slice();
         // MLS storage uses a serde-compatible binary serialization codec for group_id keys.
@@ -929,6 +966,8 @@ impl MdkSqliteStorage {
         // Begin transaction for atomicity - critical to prevent data loss on failure
         conn.execute("BEGIN IMMEDIATE", [])
             .map_err(|e| Error::Database(e.to_string()))?;
+        #[cfg(feature = "verif-hooks")]
+        verif::tick(verif::Point::Txn("restore:begin"));
 
         let result = (|| -> Result<(), Error> {
             // 2. Delete current rows for this group from all 7 tables
@@ -957,6 +996,8 @@ impl MdkSqliteStorage {
             )
             .map_err(|e| Error::Database(e.to_string()))?;
 
+            #[cfg(feature = "verif-hooks")]
+            verif::tick(verif::Point::Txn("restore:after_mls_deletes"));
             // For MDK tables, we need to disable foreign key checks temporarily
             // or delete in the right order to avoid FK violations
             conn.execute(
@@ -977,6 +1018,8 @@ impl MdkSqliteStorage {
             )
             .map_err(|e| Error::Database(e.to_string()))?;
 
+            #[cfg(feature = "verif-hooks")]
+            verif::tick(verif::Point::Txn("restore:after_deletes"));
             // Note: The CASCADE will have deleted the snapshot rows, but we already
             // have the data in memory (snapshot_rows).
 
@@ -1045,6 +1088,8 @@ impl MdkSqliteStorage {
                 .map_err(|e| Error::Database(e.to_string()))?;
             }
 
+            #[cfg(feature = "verif-hooks")]
+            verif::tick(verif::Point::Txn("restore:after_groups_insert"));
             // Now restore all other tables (groups already done above)
             for (table_name, row_key, row_data) in &snapshot_rows {
                 match table_name.as_str() {
@@ -1119,6 +1164,8 @@ impl MdkSqliteStorage {
                 }
             }
 
+            #[cfg(feature = "verif-hooks")]
+            verif::tick(verif::Point::Txn("restore:after_reinserts"));
             // 4. Delete the consumed snapshot (may be no-op if CASCADE already deleted them)
             conn.execute(
                 "DELETE FROM group_state_snapshots WHERE snapshot_name = ? AND group_id = ?",
@@ -1126,6 +1173,8 @@ impl MdkSqliteStorage {
             )
             .map_err(|e| Error::Database(e.to_string()))?;
 
+            #[cfg(feature = "verif-hooks")]
+            verif::tick(verif::Point::Txn("restore:after_snapshot_delete"));
             // 5. Re-insert other snapshots that were deleted by CASCADE
             // This preserves multiple snapshots when rolling back to one of them.
             for (snap_name, table_name, row_key, row_data, created_at) in &other_snapshots {
@@ -1142,6 +1191,8 @@ impl MdkSqliteStorage {
 
         match result {
             Ok(()) => {
+                #[cfg(feature = "verif-hooks")]
+                verif::tick(verif::Point::Txn("restore:before_commit"));
                 conn.execute("COMMIT", [])
                     .map_err(|e| Error::Database(e.to_string()))?;
                 Ok(())
@@ -1155,6 +1206,8 @@ impl MdkSqliteStorage {
 
     /// Deletes a snapshot that is no longer needed.
     fn delete_group_snapshot(&self, group_id: &GroupId, name: &str) -> Result<(), Error> {
+        #[cfg(feature = "verif-hooks")]
+        verif::tick(verif::Point::Conn);
         let conn = self.connection.lock().unwrap();
         conn.execute(
             "DELETE FROM group_state_snapshots WHERE snapshot_name = ? AND group_id = ?",
@@ -1203,6 +1256,8 @@ impl MdkStorageProvider for MdkSqliteStorage {
         &self,
         group_id: &GroupId,
     ) -> Result<Vec<(String, u64)>, MdkStorageError> {
+        #[cfg(feature = "verif-hooks")]
+        verif::tick(verif::Point::Conn);
         let conn = self.connection.lock().unwrap();
         let mut stmt = conn
             .prepare_cached(
@@ -1224,6 +1279,8 @@ impl MdkStorageProvider for MdkSqliteStorage {
     }
 
     fn prune_expired_snapshots(&self, min_timestamp: u64) -> Result<usize, MdkStorageError> {
+        #[cfg(feature = "verif-hooks")]
+        verif::tick(verif::Point::Conn);
         let conn = self.connection.lock().unwrap();
         let deleted = conn
             .execute(
